@@ -80,3 +80,9 @@ impl Default for Config {
         }
     }
 }
+
+/// Verification hooks (only with `--cfg libp2p_verif`): packet builders and parser.
+#[cfg(libp2p_verif)]
+pub mod verif {
+    pub use crate::behaviour::iface_verif::*;
+}
